@@ -5,6 +5,8 @@ import (
 	"errors"
 	"fmt"
 	"io"
+	"reflect"
+	"strings"
 
 	"gopkg.in/yaml.v3"
 )
@@ -36,7 +38,7 @@ func DecodeStrict(reader io.Reader, into any) error {
 		return fmt.Errorf("line %d: unexpected additional YAML document", additionalDocument.Line)
 	}
 
-	if err := checkDocumentShape(&document); err != nil {
+	if err := checkDocumentShape(&document, reflect.TypeOf(into)); err != nil {
 		return err
 	}
 
@@ -50,32 +52,95 @@ func isNullNode(node *yaml.Node) bool {
 	return node.Kind == yaml.ScalarNode && node.Tag == "!!null"
 }
 
-func checkDocumentShape(node *yaml.Node) error {
+// checkDocumentShape walks the document along the type it is decoded into: the
+// checks are made on what the configuration language defines (lists of rules,
+// mappings of options), not inside the free-form values it carries (`any`:
+// defaults, constants, hints), where `[~, 80]` is a value like any other.
+func checkDocumentShape(node *yaml.Node, target reflect.Type) error {
+	for target != nil && target.Kind() == reflect.Pointer {
+		target = target.Elem()
+	}
+	if target == nil || target.Kind() == reflect.Interface {
+		return nil
+	}
+
 	switch node.Kind {
 	case yaml.DocumentNode:
 		if len(node.Content) == 0 || isNullNode(node.Content[0]) {
 			return fmt.Errorf("line %d: empty document", node.Line)
 		}
+
+		return checkDocumentShape(node.Content[0], target)
 	case yaml.MappingNode:
 		for i := 0; i+1 < len(node.Content); i += 2 {
 			key := node.Content[i]
 			if key.Kind != yaml.ScalarNode || isNullNode(key) {
 				return fmt.Errorf("line %d: keys must be strings", key.Line)
 			}
+
+			if err := checkDocumentShape(node.Content[i+1], typeOfMember(target, key.Value)); err != nil {
+				return err
+			}
 		}
 	case yaml.SequenceNode:
+		var itemType reflect.Type
+		if target.Kind() == reflect.Slice || target.Kind() == reflect.Array {
+			itemType = target.Elem()
+		}
+
 		for _, item := range node.Content {
 			if isNullNode(item) {
 				return fmt.Errorf("line %d: empty list entry", item.Line)
+			}
+
+			if err := checkDocumentShape(item, itemType); err != nil {
+				return err
 			}
 		}
 	case yaml.ScalarNode, yaml.AliasNode:
 		return nil
 	}
 
-	for _, child := range node.Content {
-		if err := checkDocumentShape(child); err != nil {
-			return err
+	return nil
+}
+
+// typeOfMember gives the type the value of `key` is decoded into, within a
+// mapping decoded into `target`: the element type of a map, the type of the
+// field a struct declares for that key (inlined structs included). It gives
+// nil when there is none (the decoder reports unknown keys itself).
+func typeOfMember(target reflect.Type, key string) reflect.Type {
+	for target.Kind() == reflect.Pointer {
+		target = target.Elem()
+	}
+
+	switch target.Kind() {
+	case reflect.Map:
+		return target.Elem()
+	case reflect.Struct:
+		for i := 0; i < target.NumField(); i++ {
+			field := target.Field(i)
+			if !field.IsExported() {
+				continue
+			}
+
+			name, flags, _ := strings.Cut(field.Tag.Get("yaml"), ",")
+			if name == "-" {
+				continue
+			}
+
+			if strings.Contains(","+flags+",", ",inline,") {
+				if member := typeOfMember(field.Type, key); member != nil {
+					return member
+				}
+				continue
+			}
+
+			if name == "" {
+				name = strings.ToLower(field.Name)
+			}
+			if name == key {
+				return field.Type
+			}
 		}
 	}
 
